@@ -72,6 +72,11 @@ Theorem C05_surjection_refuted_issuance_order :
 Proof. exact surjection_args_refuted_issuance_order. Qed.
 Print Assumptions C05_surjection_refuted_issuance_order.
 
+Theorem C05_surjection_refuted_null_amount :
+  exists i, bl_tags_gen [true] [i] = bl_tags_val [true] [i] /\ bl_tags_gen [true] [i] <> bl_tags_true [i].
+Proof. exact surjection_args_refuted_null_amount. Qed.
+Print Assumptions C05_surjection_refuted_null_amount.
+
 Theorem C05_range_proof_verifies : forall (rproof : Type)
   (range_sign : Z -> bytes -> bl_tag -> bytes -> bytes -> option rproof)
   (range_verify : bl_lin -> bl_tag -> bytes -> rproof -> bool),
